@@ -18,7 +18,7 @@ def setup():
     T = world.mod("mokapot.tabular_data")
     Q = world.mod("mokapot.qvalues")
     world.rebind(B, np=symnp, Parallel=stubs.SParallel, delayed=stubs.sdelayed)
-    world.rebind(D, np=symnp, pd=sympd, crc32=s_crc32, str=s_str)
+    world.rebind(D, np=symnp, pd=sympd, crc32=s_crc32, str=s_str, hash=s_hash)
     world.rebind(P, pd=sympd, Parallel=stubs.SParallel, delayed=stubs.sdelayed)
     world.rebind(U, np=symnp, pd=sympd)
     world.rebind(T, np=symnp, pd=sympd, pq=vfs.pq_stub, pa=vfs.pa_stub)
@@ -37,6 +37,41 @@ def s_str(x):
     return _str(x)
 
 
+SESSION = [0]  # interpreter session of the code under test (Python's str hash is salted per session: PYTHONHASHSEED)
+
+
+def _zpart(p):
+    import z3
+    from symx import core
+    return z3.StringVal(p) if isinstance(p, _str) else core._z(p)
+
+
+def s_hash(x):
+    """builtin hash(): for a tuple with a str/bytes member the value differs from one interpreter
+    session to the next (salted), for numbers it is a fixed function of the value."""
+    import z3
+    from symx import core, symnp
+    if isinstance(x, symnp.SArray):
+        raise TypeError("unhashable type: 'numpy.ndarray'")
+    parts = x.parts if isinstance(x, core.SKey) else x if isinstance(x, tuple) else None
+    if parts is None or not any(isinstance(p, core.Sym) for p in parts):
+        if parts is not None and any(isinstance(p, (_str, bytes)) for p in parts) or isinstance(x, (_str, bytes)):
+            raise core.Unsupported("hash() of a concrete str: salted per interpreter session, not modelled for %r" % (x,))
+        return hash(x)
+    textual = any(isinstance(p, (_str, bytes)) for p in parts)
+    zp = tuple(_zpart(p) for p in parts)
+    name = "pyhash_%s_%d" % ("session%d" % SESSION[0] if textual else "det", len(zp))
+    H = z3.Function(name, *([q.sort() for q in zp] + [z3.IntSort()]))
+    h = H(*zp)
+    ctx = core.Ctx.cur
+    seen = HASHES.setdefault((id(ctx), name), [])
+    for op, oh in seen:
+        if len(op) == len(zp) and all(a.sort() == b.sort() for a, b in zip(op, zp)):
+            ctx.assume(z3.Implies(z3.Not(z3.And([a == b for a, b in zip(op, zp)])), oh != h))
+    seen.append((zp, h))
+    return core.SNum(h)
+
+
 def s_crc32(k):
     """zlib.crc32 -> uninterpreted function of the key tuple; assumed injective on the keys
     of one run (collisions are outside every claim, DESIGN 1.3)."""
@@ -45,15 +80,15 @@ def s_crc32(k):
     if not isinstance(k, core.SKey):
         import zlib
         return zlib.crc32(k)
-    parts = tuple(core._z(p) for p in k.parts)
+    parts = tuple(_zpart(p) for p in k.parts)
     sig = tuple(p.sort().name() for p in parts)
-    name = "crc32_%d" % len(parts)
+    name = "crc32_%s" % "_".join(sig)
     H = z3.Function(name, *([p.sort() for p in parts] + [z3.IntSort()]))
     h = H(*parts)
     ctx = core.Ctx.cur
     seen = HASHES.setdefault(id(ctx), [])
     for op, oh in seen:
-        if len(op) == len(parts):
+        if len(op) == len(parts) and all(a.sort() == b.sort() for a, b in zip(op, parts)):
             ctx.assume(z3.Implies(z3.Not(z3.And([a == b for a, b in zip(op, parts)])), oh != h))
     seen.append((parts, h))
     return core.SNum(h)
@@ -118,7 +153,7 @@ class StubModel:
 COLS = ["SpecId", "Label", "ScanNr", "ExpMass", "Peptide", "Proteins", "rowid", "fileid", "f1"]
 
 
-def make_dataset(ctx, D, n, fid=0, keycols=2, label_enc="pm1", tag=""):
+def make_dataset(ctx, D, n, fid=0, keycols=2, label_enc="pm1", tag="", filecol=False):
     """One PIN-like VFS file with n rows. Symbolic: spectrum key columns, labels, feature."""
     import z3
     from symx import sympd, vfs, core
@@ -135,13 +170,18 @@ def make_dataset(ctx, D, n, fid=0, keycols=2, label_enc="pm1", tag=""):
     cols = {"SpecId": list(range(n)), "Label": labcol, "ScanNr": [SNum(z) for z in scan], "ExpMass": [SNum(z) for z in mass],
             "Peptide": ["PEP%d_%d" % (fid, i) for i in range(n)], "Proteins": ["PROT"] * n, "rowid": list(range(n)), "fileid": [fid] * n,
             "f1": [SNum(z) for z in feat]}
-    vfs.put(path, sympd.DataFrame(cols))
     spec_cols = ["ScanNr", "ExpMass"][:keycols] if keycols <= 2 else ["ScanNr", "ExpMass", "Peptide"][:keycols]
+    if filecol:
+        # the optional file-name column comes first among the spectrum columns (as read_pin orders them)
+        cols["filename"] = ["run%d.mzML" % fid] * n
+        spec_cols = ["filename"] + spec_cols
+    vfs.put(path, sympd.DataFrame(cols))
     sdf = sympd.DataFrame({c: list(cols[c]) for c in spec_cols})
     sdf["Label"] = [SBool(z) for z in lab]
-    ds = D.OnDiskPsmDataset(filename=path, columns=list(COLS), target_column="Label", spectrum_columns=list(spec_cols), peptide_column="Peptide",
-                            protein_column="Proteins", feature_columns=["rowid", "fileid", "f1"], metadata_columns=["SpecId", "Label", "ScanNr", "ExpMass", "Peptide", "Proteins"],
-                            metadata_column_types=["int", "int", "int", "int", "str", "str"], level_columns=["Peptide"], filename_column=None, scan_column="ScanNr",
+    extra = ["filename"] if filecol else []
+    ds = D.OnDiskPsmDataset(filename=path, columns=list(COLS) + extra, target_column="Label", spectrum_columns=list(spec_cols), peptide_column="Peptide",
+                            protein_column="Proteins", feature_columns=["rowid", "fileid", "f1"], metadata_columns=["SpecId", "Label", "ScanNr", "ExpMass", "Peptide", "Proteins"] + extra,
+                            metadata_column_types=["int", "int", "int", "int", "str", "str"] + ["str"] * len(extra), level_columns=["Peptide"], filename_column="filename" if filecol else None, scan_column="ScanNr",
                             specId_column="SpecId", calcmass_column=None, expmass_column="ExpMass", rt_column=None, charge_column=None, spectra_dataframe=sdf)
     sym = dict(scan=scan, mass=mass, lab=lab, feat=feat, n=n, fid=fid, keycols=keycols, path=path)
     return ds, sym
